@@ -52,7 +52,8 @@ def job_spectrum(res, n, N, spacing, buckets, cutoff_on, wake_first=False):
     if not cutoff_on:
         prove(res, 'n=%d N=%d buckets %s: CSR spectrum[b][k] == delta_q^2 * Re Z_k * |r2c(profile of bunch b alone)_k|^2 for k <= N/2 and 0 above (all %d cells)' % (n, N, list(buckets), nb * N),
               st.pc, z3.Or(*bad), key='csr-spectrum-structure', cex_fn=cex)
-    prove(res, 'n=%d N=%d buckets %s cutoff=%s: CSR intensity[b] == delta_f * sum_k spectrum[b][k]' % (n, N, list(buckets), cutoff_on), st.pc, z3.Or(*badp), key='csr-intensity-sum', cex_fn=cex)
+    def cexp(m): return dict(cex(m), what='intensity', cutoff=3e11 if cutoff_on else 0.0, freq_delta=float(R['freq_delta']))
+    prove(res, 'n=%d N=%d buckets %s cutoff=%s: CSR intensity[b] == delta_f * sum_k spectrum[b][k]' % (n, N, list(buckets), cutoff_on), st.pc, z3.Or(*badp), key='csr-intensity-sum', cex_fn=cexp)
     # signs, decided per frequency bin (the transform values enter only through re^2 + im^2)
     for b in range(nb):
         for k in range(N):
@@ -98,6 +99,13 @@ def replayer(bld):
         if c.get('wake_first'):
             o = native_run(bld, {'n': n, 'N': N, 'spacing': sp, 'buckets': bk, 'ops': ['w', 'c'], 'prof0': [rr.uniform(0.1, 1) for _ in rho], 'prof1': rho, 'z': z, 'cutoff': 0.0}, 'c07')
         else: o = native_run(bld, {'n': n, 'N': N, 'spacing': sp, 'buckets': bk, 'ops': ['c'], 'prof0': rho, 'z': z, 'cutoff': 0.0}, 'c07')
+        if c.get('what') == 'intensity':
+            # native: stored intensity of every bunch against the sum of that bunch's own stored spectrum
+            if c.get('cutoff'): o = native_run(bld, {'n': n, 'N': N, 'spacing': sp, 'buckets': bk, 'ops': ['c'], 'prof0': rho, 'z': z, 'cutoff': float(c['cutoff'])}, 'c07')
+            df = float(c['freq_delta']); worst = 0.0; sc = 1e-300
+            for b in range(nb):
+                tot = df * sum(o['csr'][b * N + k] for k in range(N)); worst = max(worst, abs(o['csrpower'][b] - tot)); sc = max(sc, abs(tot))
+            return (worst > 1e-4 * sc, 'native: CSR intensity of a bunch differs from delta_f * sum of its own spectrum by %.3g (scale %.3g)' % (worst, sc))
         dq = f32(f32(12.0) / f32(n - 1)); dev = 0.0; scale = 1e-300
         for b in range(nb):
             F = np.fft.rfft(np.array(rho[b * n:(b + 1) * n] + [0.0] * (N - n)))
